@@ -808,4 +808,131 @@ theorem inc_after_reset_counterexample :
   norm_num [Pair.run, Pair.step, Pair.init, Cell.record, Cell.init, Pair.fullSync, Pair.incSync, cfgAsWritten, copyRew,
     bump, setQ, unit, unitFrom, nthN, nthQ, List.replicate]
 
+/-- **sparse_reward_lag_counterexample** (finding C07-sparse-reward-lag, harness case 3): with the sparse
+    reward rule the exposed reward after `sync` need not be the empirical mean (it is within the tolerance). -/
+theorem sparse_reward_lag_counterexample :
+    let cfg : Cfg := { cfgAsWritten with rewTol := some (1 / 1000000) }
+    let h : List LOp := [.record 1 1, .syncInc 1, .record 1 (1 + 1 / 10000000), .syncInc 1]
+    ((Pair.init 2 0 0).run cfg h).rew = 1 ∧ meanOf (Ghost.init.run h).snap = 1 + 1 / 20000000 := by
+  constructor
+  · norm_num [Pair.run, Pair.step, Pair.init, Cell.record, Cell.init, Pair.fullSync, Pair.incSync, cfgAsWritten, copyRew,
+      bump, setQ, unit, unitFrom, nthN, nthQ, List.replicate, absQ]
+  · norm_num [Ghost.run, Ghost.step, Ghost.init, meanOf, sumR]
+
+/-! ## §6 from one pair to a table -/
+
+theorem getElem?_mapIdxFrom {α β} (f : Nat → α → β) (k : Nat) (l : List α) (i : Nat) :
+    (mapIdxFrom f k l)[i]? = (l[i]?).map (f (k + i)) := by
+  induction l generalizing k i with
+  | nil => simp [mapIdxFrom]
+  | cons x xs ih =>
+    cases i with
+    | zero => simp [mapIdxFrom]
+    | succ i =>
+      simp only [mapIdxFrom, List.getElem?_cons_succ, ih]
+      have : k + 1 + i = k + (i + 1) := by omega
+      rw [this]
+
+theorem getElem?_initPairs (w : Nat) (dflOf : Nat → Nat) (n k i : Nat) :
+    (initPairs w dflOf n k)[i]? = if i < n then some (Pair.init w (dflOf (k + i)) (k + i)) else none := by
+  induction n generalizing k i with
+  | zero => simp [initPairs]
+  | succ n ih =>
+    cases i with
+    | zero => simp [initPairs]
+    | succ i =>
+      simp only [initPairs, List.getElem?_cons_succ, ih]
+      have : k + 1 + i = k + (i + 1) := by omega
+      simp [this]
+
+theorem World.run_pairs (cfg : Cfg) (wd : World) (h : List Op) (i : Nat) :
+    (wd.run cfg h).pairs[i]? = (wd.pairs[i]?).map (fun p => p.run cfg (h.map (Op.project i))) := by
+  induction h generalizing wd with
+  | nil => simp [World.run, Pair.run]
+  | cons op t ih =>
+    simp only [World.run, List.foldl_cons] at ih ⊢
+    rw [ih]
+    simp only [World.step, getElem?_mapIdxFrom, Nat.zero_add, Option.map_map, List.map_cons, Pair.run, List.foldl_cons]
+    rfl
+
+/-- every pair of a table evolves exactly as the single-pair model on the projected history -/
+theorem world_pair_eq (cfg : Cfg) (np w : Nat) (dflOf : Nat → Nat) (h : List Op) (i : Nat) (hi : i < np) :
+    ((World.init np w dflOf).run cfg h).pairs[i]? = some ((Pair.init w (dflOf i) i).run cfg (h.map (Op.project i))) := by
+  rw [World.run_pairs]
+  simp [World.init, getElem?_initPairs, hi]
+
+/-- `timesteps_` = number of `record` calls since the last `reset` -/
+def tsOf (h : List Op) : Nat :=
+  h.foldl (fun n op => match op with | .record .. => n + 1 | .reset => 0 | _ => n) 0
+
+theorem world_ts (cfg : Cfg) (wd : World) (h : List Op) :
+    (wd.run cfg h).ts = h.foldl (fun n op => match op with | .record .. => n + 1 | .reset => 0 | _ => n) wd.ts := by
+  induction h generalizing wd with
+  | nil => rfl
+  | cons op t ih =>
+    simp only [World.run, List.foldl_cons] at ih ⊢
+    rw [ih]
+    cases op <;> rfl
+
+/-- **world_mirrors_history** — the property for a whole table (every one of the modelled classes):
+    after any sequence of calls, for every pair `i` whose projected history is well formed and respects the
+    precondition of the incremental sync, the conclusions of `model_mirrors_history` hold for that pair,
+    and `timesteps` counts the records since the last reset. -/
+theorem world_mirrors_history (cfg : Cfg) (np w : Nat) (dflOf : Nat → Nat) (h : List Op) (i : Nat) (hi : i < np)
+    (hwf : wfAll w (h.map (Op.project i)) = true) (hpre : incPre Ghost.init (h.map (Op.project i)) = true)
+    (hc : cfg.n1Clear = true ∨ (noReset (h.map (Op.project i)) = true ∧ cfg.ctorJunk = false)) :
+    ((World.init np w dflOf).run cfg h).ts = tsOf h ∧
+    ∃ p, ((World.init np w dflOf).run cfg h).pairs[i]? = some p ∧
+      let g := Ghost.init.run (h.map (Op.project i))
+      (p.cell.n = g.recs.length ∧ p.cell.mean = meanOf g.recs ∧ p.cell.m2 = sqDevOf g.recs ∧
+        ∀ k, k < w → nthN p.cnt k = countS1 k g.recs) ∧
+      (g.snap ≠ [] → (∀ k, k < w → nthQ p.row k = freqOf g.snap k) ∧ RewOK cfg p.rew (meanOf g.snap)) ∧
+      (cfg.ctorJunk = false → g.snap = [] → p.row = unit w (dflOf i) ∧ p.rew = 0) ∧
+      (g.pend = 0 → g.recs ≠ [] → g.snap = g.recs) := by
+  refine ⟨by rw [world_ts]; rfl, _, world_pair_eq cfg np w dflOf h i hi, ?_⟩
+  exact model_mirrors_history cfg w (dflOf i) i (h.map (Op.project i)) hwf hpre hc
+
+/-- hypotheses of `world_mirrors_history` are satisfiable by a non-trivial history, with the code as written
+    (S = 2, A = 1: records, incremental syncs after each record of a pair, a full sync, a model constructed late) -/
+example :
+    let h : List Op := [.record 0 1 2, .syncInc 0 1, .record 0 0 (-1), .syncInc 0 0, .record 1 1 3, .record 1 0 5, .sync 1, .ctor false, .syncAll]
+    wfAll 2 (h.map (Op.project 0)) = true ∧ incPre Ghost.init (h.map (Op.project 0)) = true ∧
+    noReset (h.map (Op.project 0)) = true ∧
+    wfAll 2 (h.map (Op.project 1)) = true ∧ incPre Ghost.init (h.map (Op.project 1)) = true := by
+  decide
+
+/-! ## §8 Thompson models -/
+
+theorem sumQ_map_div (g : List Rat) (c : Rat) : sumQ (g.map (fun x => x / c)) = sumQ g / c := by
+  induction g with
+  | nil => simp [sumQ]
+  | cons x xs ih => simp only [List.map_cons, sumQ, ih]; ring
+
+theorem sumQ_pos (g : List Rat) (hne : g ≠ []) (hp : ∀ x ∈ g, 0 < x) : 0 < sumQ g := by
+  induction g with
+  | nil => exact absurd rfl hne
+  | cons x xs ih =>
+    simp only [sumQ]
+    have hx : 0 < x := hp x (by simp)
+    by_cases e : xs = []
+    · subst e; simpa [sumQ] using hx
+    · have := ih e (fun y hy => hp y (by simp [hy])); linarith
+
+/-- **thompson_rows_valid**: whatever positive gamma draws the sampler produced, the exposed row
+    (`draws / Σ draws`, as `sampleDirichletDistribution` computes it) is a probability distribution -/
+theorem thompson_rows_valid (g : List Rat) (hne : g ≠ []) (hp : ∀ x ∈ g, 0 < x) :
+    (∀ y ∈ normalize g, 0 < y) ∧ sumQ (normalize g) = 1 ∧ (normalize g).length = g.length := by
+  have hs := sumQ_pos g hne hp
+  refine ⟨fun y hy => ?_, ?_, by simp [normalize]⟩
+  · simp only [normalize, List.mem_map] at hy
+    obtain ⟨x, hx, rfl⟩ := hy
+    exact div_pos (hp x hx) hs
+  · rw [normalize, sumQ_map_div]; exact div_self (ne_of_gt hs)
+
+/-- below two visits the exposed reward of a Thompson model is the empirical mean -/
+theorem thompson_reward_mle (c : Cell) (t sd : Rat) (h : c.n < 2) : thompsonReward c t sd = c.mean := by
+  simp [thompsonReward, h]
+
+example : normalize [1/2, 3/2, 2] = [1/8, 3/8, 1/2] := by norm_num [normalize, sumQ]   -- test on literals
+
 end AITB.Exp
